@@ -160,13 +160,19 @@ func perms(n int) [][]int {
 // (ethEnable, or -1: driver switched off, consulted only by queries without a height context).
 var ethAt int64 = ethEnable
 
+// utxoAt is the enable height of the utxo driver (0 by default: always on; with a positive height the
+// base58 drivers' errors are no longer masked at low heights and the pre-fork compatibility rules decide).
+var utxoAt int64
+
+const utxoName = "utxo"
+
 func setup() {
 	ops, fresh, txs, txName, addrs = nil, nil, nil, nil, nil
 	cfg = types.NewChain33Config(types.GetDefaultCfgstring())
 	cfg.SetFork("ForkMultiSignAddress", forkMultiSign)
 	cfg.SetFork("ForkBase58AddressCheck", forkBase58)
 	cfg.SetFork(address.ForkFormatAddressKey, forkFormat)
-	address.Init(&address.Config{DefaultDriver: "btc", EnableHeight: map[string]int64{"eth": ethAt}})
+	address.Init(&address.Config{DefaultDriver: "btc", EnableHeight: map[string]int64{"eth": ethAt, utxoName: utxoAt}})
 	crypto.Init(&crypto.Config{EnableHeight: map[string]int64{"ed25519": edEnable}}, cfg.GetSubConfig().Crypto)
 	api := &mocks.QueueProtocolAPI{}
 	api.On("GetConfig").Return(cfg)
@@ -331,18 +337,21 @@ func main() {
 	r = vx.Start("C19", "model_checking")
 	r.Rule = "BFS over all histories (depth 3 quick / 4 thorough) of queries {address.CheckAddress, dapp.CheckAddress} x 9 addresses (valid btc / multisig / eth lower / eth mixed / utxo outpoint, bad checksum 25 and 26 bytes, bad version, garbage) x heights around the eth enable height and the two address forks x driver-table iteration orders (quick: one per last-visited driver; thorough: all 24), PubKeyToAddr / tx.From at context heights around ForkFormatAddressKey, tx.CheckSign around a crypto enable height; process-global caches kept between queries; state = content of the validity cache and of the btc/multisig/eth public-key caches. Every answer is compared with the answer of the same single query on fresh state under the canonical driver order. distinct = distinct fresh answers"
 	r.Assume = []string{
-		"two configurations: address.enableHeight.eth=10 and eth=-1 (driver switched off); ForkMultiSignAddress=20, ForkBase58AddressCheck=30, ForkFormatAddressKey=40, crypto.enableHeight.ed25519=5 (set through address.Init / crypto.Init / cfg.SetFork)",
+		"three configurations: address.enableHeight.eth=10; eth=-1 (driver switched off); eth=10 with the utxo driver gated at 10 as well; ForkMultiSignAddress=20, ForkBase58AddressCheck=30, ForkFormatAddressKey=40, crypto.enableHeight.ed25519=5 (set through address.Init / crypto.Init / cfg.SetFork)",
 		"fresh-process state is emulated by purging the package caches through add-only overlay shims; the iteration order of address.drivers is owned by vinstr rule maprange (vrt.MapOrder)",
 		"the crypto context height (SetCurrentBlock) is treated as the h of PubKeyToAddr / tx.From queries",
 		"no executor is registered, so dapp.IsDriverAddress is always false",
 	}
 	r.DistinctSet = "answers"
 	// two configurations: eth driver enabled from height 10; eth driver switched off (negative height)
-	for _, at := range []int64{ethEnable, -1} {
-		ethAt = at
+	for ci, at := range []int64{ethEnable, -1, ethEnable} {
+		ethAt, utxoAt = at, 0
+		if ci == 2 {
+			utxoAt = ethEnable // third configuration: utxo gated like eth
+		}
 		setup()
 		q := mkSeq()
-		q.Name = fmt.Sprintf("history[eth@%d]", at)
+		q.Name = fmt.Sprintf("history[eth@%d,utxo@%d]", at, utxoAt)
 		if raw, ok := r.Replaying(); ok {
 			var c struct{ Hist []int }
 			json.Unmarshal(raw, &c)
